@@ -9,6 +9,7 @@ import Proofs.X690Prim
 import Proofs.X690Der
 import Proofs.Kernels
 import Proofs.KernelReal
+import Proofs.KernelWrap
 
 namespace Asn1.C03
 
@@ -150,6 +151,25 @@ theorem source_oid_is_x690 (arcs : List Nat) :
 theorem source_real_is_x690 (m e : Int) (hm : m ≠ 0) :
     GenK.realBin (if m < 0 then -1 else 1) (m.natAbs : Int) 2 e = Kernels.liftReal (X690.realOctets (.fin m 2 e)) := by
   rw [Kernels.realBin_kernel m e hm, real_is_x690]
+
+/-- **CER length form, at the source level** (X.690 9.1: indefinite length exactly for constructed encodings): under one
+    tag and in indefinite mode (`defMode` false - what CER fixes), the header loop of `AbstractItemEncoder.encode` as it is
+    in the source (`GenK.wrapTags`) writes `80 … 00 00` around constructed contents and a definite length and no
+    end-of-octets around primitive ones - every tag, every contents -/
+theorem source_cer_length_form (t : Tag) (sub : Bytes) (isCons isOct : Bool) (hne : sub ≠ []) :
+    GenK.wrapTags true false [Kernels.tagTriple t] false (Kernels.bytesInts sub) isCons isOct =
+      (if isCons then .ok (Kernels.bytesInts (encodeTag t true ++ [0x80] ++ sub ++ [0, 0]))
+       else Kernels.liftLen (match encodeLength sub.length with
+         | some l => .ok (encodeTag t false ++ l ++ sub)
+         | none => .error .refused)) := by
+  have h := Kernels.wrapTags_kernel true false false isCons isOct t [] sub
+  simp only [List.map_cons, List.map_nil] at h
+  rw [h, Kernels.wrapTags_single]
+  have he : sub.isEmpty = false := by cases sub <;> simp_all
+  cases isCons
+  · simp only [he, Bool.false_and, Bool.false_eq_true, if_false, Bool.and_false]
+    cases encodeLength sub.length <;> simp [Kernels.liftLen]
+  · simp [he, Kernels.liftLen]
 
 /-- non-vacuity: [APPLICATION 16384] constructed; length 300; OID 2.999.3; -5 * 2^3, 12 * 2^298 = 3 * 2^300 (two exponent octets) -/
 example : GenK.realBin (-1) 5 2 3 = .ok [192, 3, 5] := by rfl
